@@ -128,6 +128,13 @@ impl Universe {
         for v in EXTREME_LINES {
             lines.insert(v);
         }
+        // aliases of in-range lines modulo 2^32 (a reader narrowing the caller's line to 32 bits would hit them)
+        lines.insert((1u64 << 32) + 1);
+        for &(s, e) in ranges.iter().take(24) {
+            lines.insert((1u64 << 32).wrapping_add(s));
+            lines.insert((1u64 << 32).wrapping_add(e));
+            lines.insert((1u64 << 33).wrapping_add(s));
+        }
 
         Universe {
             known_classes: obf_classes.iter().cloned().collect(),
